@@ -336,6 +336,66 @@ def rejection_obligations() -> list:
     return obs
 
 
+def zoo_bounded(sess: Session):
+    """validate() executed natively on deliberately broken lexicons: it returns a report with all selected codes (never
+    raises - e.g. values of mixed types in sorted()/comparisons, which the symbolic run does not model), and the items
+    of the listed codes are the expected ones."""
+    import wn.validate as V_
+    base = {'id': 'z', 'label': 'L', 'language': 'en', 'email': 'e', 'license': 'l', 'version': '1', 'meta': None}
+
+    def ss(i, pos='n', rels=(), **kw):
+        d = {'id': f'z-{i}', 'ili': '', 'meta': None, 'relations': [dict(r) for r in rels]}
+        if pos is not None:
+            d['partOfSpeech'] = pos
+        d.update(kw)
+        return d
+
+    def rel(t, typ='hypernym', dctype=None):
+        return {'target': f'z-{t}', 'relType': typ, 'meta': ({'type': dctype} if dctype else None)}
+    zoo = [
+        # the same relation four times: twice with dc:type, twice without (keys of mixed None / str)
+        ('parallel relations with and without dc:type',
+         dict(base, synsets=[ss(1, rels=[rel(2, 'other'), rel(2, 'other'), rel(2, 'other', 'x'), rel(2, 'other', 'x')]),
+                             ss(2)]), {'W403': ['z-1']}),
+        # hypernym exists but has no part of speech / an empty one / another one: all three differ from 'n'
+        ('hypernyms without part of speech',
+         dict(base, synsets=[ss(1, rels=[rel(4)]), ss(2, rels=[rel(5)]), ss(3, rels=[rel(6)]), ss(4, pos=None),
+                             ss(5, pos=''), ss(6, pos='v'), ss(7, rels=[rel(8)]), ss(8)]),
+         {'W501': ['z-1', 'z-2', 'z-3']}),
+        # duplicate ids of every kind, dangling references, self-loops
+        ('duplicates and dangling references',
+         dict(base, entries=[{'id': 'z-e', 'meta': None, 'lemma': {'writtenForm': 'w', 'partOfSpeech': 'n'},
+                              'senses': [{'id': 'z-s', 'synset': 'z-1', 'meta': None, 'relations': [
+                                  {'target': 'z-missing', 'relType': 'antonym', 'meta': None},
+                                  {'target': 'z-s', 'relType': 'antonym', 'meta': None}]}]},
+                             {'id': 'z-e', 'meta': None, 'lemma': {'writtenForm': 'w', 'partOfSpeech': 'n'},
+                              'senses': [{'id': 'z-s', 'synset': 'z-nosuch', 'meta': None}]}],
+              synsets=[ss(1, rels=[rel(1), rel(99)]), ss(1)]),
+         {'E101': ['z-1', 'z-e', 'z-s'], 'E204': ['z-s'], 'E401': ['z-1', 'z-s']}),
+    ]
+    cases, bad = 0, []
+    for label, lex, expect in zoo:
+        cases += 1
+        try:
+            report = V_.validate(lex, progress_handler=None)
+        except Exception as exc:   # noqa: BLE001
+            bad.append({'lexicon': label, 'raised': f'{type(exc).__name__}: {exc}'})
+            continue
+        if set(report) != set(V_._codes):
+            bad.append({'lexicon': label, 'codes': sorted(report)})
+        for code, want in expect.items():
+            got = sorted(report[code]['items'])
+            if got != sorted(want):
+                bad.append({'lexicon': label, 'code': code, 'items': got, 'expected': sorted(want)})
+    sess.add_bounded('wn.validate.validate on broken lexicons', f'{len(zoo)} hand-built lexicons (mixed-type relation '
+                     'keys, hypernyms without part of speech, duplicate ids, dangling references, self-loops)', cases,
+                     'native execution', not bad)
+    if bad:
+        sess.violation_direct('wn.validate.validate:zoo', 'validate() raises or lists other items than documented on a '
+                              'broken lexicon', {'witness': repr(bad[0])[:1500], 'cases': len(bad)}, True,
+                              functions=('wn.validate.validate',))
+
+
 def rejection_bounded(sess: Session):
     """A lexicon for which E204 / E401 is reported is rejected by add (native, generated lexicons): dangling synset of a
     sense, dangling target of a synset relation, of a sense relation and of a sense-synset relation."""
@@ -469,6 +529,7 @@ def run(sess: Session):
     sess.assume('A-ENGINE', 'A-PY-COUNTER')
     for ob in table_obligations():
         sess.check(ob)
+    zoo_bounded(sess)
     rejection_bounded(sess)
     cli_bounded(sess)
     sess.trust('vc/pyvc', 'collections.Counter: count(x) > 1 iff x occurs at two positions (A-PY-COUNTER)')
